@@ -53,6 +53,7 @@ type txState struct {
 	pending []int
 	saves   []savePoint
 	done    bool
+	bad     bool // the transaction's connection is gone (BadConn fault): every later call fails with driver.ErrBadConn
 }
 
 type Result struct {
@@ -97,6 +98,7 @@ type Store struct {
 	OnExecE             func(text string, args []driver.Value) (Result, error) // takes precedence over both; may fail the statement
 	OnQuery             func(text string, args []driver.Value) RowSet
 	NoSavepoint         bool
+	BadConn             bool   // the injected fault, when it hits a call inside a transaction, is a lost connection (driver.ErrBadConn, sticky for that transaction)
 	Before              func() // called before every BEGIN/EXEC/QUERY/COMMIT boundary call, outside the driver lock (C07 pause point)
 }
 
@@ -139,6 +141,23 @@ func (s *Store) fault(ctx int) error {
 	return nil
 }
 
+// faultIn is fault for a call that may belong to a transaction. With BadConn a
+// fault inside a transaction loses the connection: this and every later call
+// of that transaction fail with driver.ErrBadConn; the later ones are not
+// logged (database/sql repeats a failed prepared-statement call on the same
+// transaction connection, how often is its business).
+func (s *Store) faultIn(tx *txState, ctx int) (error, bool) {
+	if tx != nil && tx.bad {
+		return driver.ErrBadConn, true
+	}
+	err := s.fault(ctx)
+	if err != nil && s.BadConn && tx != nil && err != context.Canceled {
+		tx.bad = true
+		return driver.ErrBadConn, false
+	}
+	return err, false
+}
+
 // Calls is the number of fallible boundary calls made so far.
 func (s *Store) Calls() int { return s.calls }
 
@@ -160,9 +179,11 @@ func (s *Store) Commit(tx *txState) error {
 		return errTxDone
 	}
 	tx.done = true
-	if err := s.fault(0); err != nil {
+	if err, silent := s.faultIn(tx, 0); err != nil {
 		// a failed COMMIT leaves nothing durable (stated stub contract)
-		s.Log = append(s.Log, Event{Kind: "COMMIT", Tx: tx.id, Fail: true})
+		if !silent {
+			s.Log = append(s.Log, Event{Kind: "COMMIT", Tx: tx.id, Fail: true})
+		}
 		return err
 	}
 	s.Durable = append(s.Durable, tx.pending...)
@@ -219,8 +240,10 @@ func (s *Store) Exec(tx *txState, ctx int, text string, args []driver.Value) (Re
 		}
 		return Result{}, errors.New("verif: no such savepoint")
 	}
-	if err := s.fault(ctx); err != nil {
-		s.Log = append(s.Log, Event{Kind: "EXEC", Text: text, Args: args, Ctx: ctx, Tx: txid, Fail: true})
+	if err, silent := s.faultIn(tx, ctx); err != nil {
+		if !silent {
+			s.Log = append(s.Log, Event{Kind: "EXEC", Text: text, Args: args, Ctx: ctx, Tx: txid, Fail: true})
+		}
 		return Result{}, err
 	}
 	if hasPrefix(text, "SAVEPOINT ") {
@@ -268,8 +291,10 @@ func (s *Store) Query(tx *txState, ctx int, text string, args []driver.Value) (R
 			return RowSet{}, errTxDone
 		}
 	}
-	if err := s.fault(ctx); err != nil {
-		s.Log = append(s.Log, Event{Kind: "QUERY", Text: text, Args: args, Ctx: ctx, Tx: txid, Fail: true})
+	if err, silent := s.faultIn(tx, ctx); err != nil {
+		if !silent {
+			s.Log = append(s.Log, Event{Kind: "QUERY", Text: text, Args: args, Ctx: ctx, Tx: txid, Fail: true})
+		}
 		return RowSet{}, err
 	}
 	s.Log = append(s.Log, Event{Kind: "QUERY", Text: text, Args: args, Ctx: ctx, Tx: txid})
